@@ -671,44 +671,104 @@ example : (loopRun ⟨.temporary, 60⟩ ⟨none, none, none, none⟩ 0 (fromScra
     [(.temporary (some 0), 0), (.temporary none, 0), (.ok, 0), (.ok, 0)]).map
       (fun a => (a.time, a.retry, a.recAfter.finished)) = [(0, 0, false), (0, 1, false), (0, 2, true)] := by decide
 
-/-! ## Records with TZ-naive timestamps (finding C11-F5)
+/-! ## Records with TZ-naive timestamps (finding C11-F5, repaired by e01f630)
 
   Full statement (property: "… is retried … for change handlers also across operator restarts"): a
-  cycle on a stored record of an unfinished handler whose delay has passed executes it (`stepStored = att`).
-  True for every record this kopf has written itself (`stored_aware_is_step`); FALSE for a record whose
-  timestamps carry no UTC offset (written by a release before the TZ-aware clock, or by hand): -/
+  cycle on a stored record of an unfinished handler whose delay has passed executes it, whatever the
+  spelling of the record's timestamps (`stepStored = att`). True of the code since e01f630
+  (`stored_is_step`, `naive_is_utc`); it was FALSE of the code before, for a record whose timestamps carry
+  no UTC offset (written by a release before the TZ-aware clock, or by hand): the `naive_*` theorems are
+  about that variant (`stepStoredRaw`: the parsed values taken as they are) and stay as regressions. -/
 
 /-- Records spelled the way kopf spells them behave as everything above says: the gate, then the attempt. -/
 theorem stored_aware_is_step (env : Env) (l : Limits) (r : Rec) (now : Int) (x : Raised) (dur : Nat) :
     stepStored env l ⟨false, false⟩ r now x dur =
       if r.awakened now then .att (attemptAt env l now r x dur 0) else .idle r.finished := by
-  cases hf : r.finished <;> cases hs : r.sleeping now <;> simp [stepStored, Rec.awakened, hf, hs]
+  cases hf : r.finished <;> cases hs : r.sleeping now <;>
+    simp [stepStored, stepStoredRaw, Spelling.asUtc, Rec.awakened, hf, hs]
 
-/-- NEGATION (finding C11-F5): an unfinished handler that is due and within its limits (one attempt
-    made, retry asked for at 100, `retries = 5`, now 200) — on a record with a TZ-naive `delayed` the
-    cycle raises instead of executing it, -/
+/-- A record with TZ-naive timestamps is treated exactly as the same record (the same digits) with
+    `+00:00`: whichever of `started` / `delayed` came back without an offset. -/
+theorem naive_is_utc (env : Env) (l : Limits) (sp : Spelling) (r : Rec) (now : Int) (x : Raised) (dur : Nat) :
+    stepStored env l sp r now x dur = stepStored env l ⟨false, false⟩ r now x dur := rfl
+
+/-- Hence for EVERY spelling: the gate, then the attempt; no cycle raises on a stored record. -/
+theorem stored_is_step (env : Env) (l : Limits) (sp : Spelling) (r : Rec) (now : Int) (x : Raised) (dur : Nat) :
+    stepStored env l sp r now x dur =
+      if r.awakened now then .att (attemptAt env l now r x dur 0) else .idle r.finished := by
+  rw [naive_is_utc, stored_aware_is_step]
+
+example : stepStored ⟨.temporary, 60⟩ ⟨none, some 10, some 5, none⟩ ⟨true, true⟩ ⟨0, none, some 100, 1, false, false⟩ 200 .ok 0
+    ≠ .raised := by decide
+
+/-- The variant before e01f630 agrees with the code on what kopf writes itself (no naive timestamp). -/
+theorem raw_aware_is_stored (env : Env) (l : Limits) (r : Rec) (now : Int) (x : Raised) (dur : Nat) :
+    stepStoredRaw env l ⟨false, false⟩ r now x dur = stepStored env l ⟨false, false⟩ r now x dur := rfl
+
+/-- REGRESSION (finding C11-F5, the code before e01f630): an unfinished handler that is due and within its
+    limits (one attempt made, retry asked for at 100, `retries = 5`, now 200) — on a record with a TZ-naive
+    `delayed` the old cycle raised instead of executing it; the repaired one executes it. -/
 theorem naive_record_never_retried_witness :
     ∃ (env : Env) (l : Limits) (r : Rec) (now : Int),
       r.awakened now = true ∧ precheck l r now = none ∧
-      stepStored env l ⟨false, true⟩ r now .ok 0 = .raised ∧
-      stepStored env l ⟨false, false⟩ r now .ok 0 = .att (attemptAt env l now r .ok 0 0) :=
+      stepStoredRaw env l ⟨false, true⟩ r now .ok 0 = .raised ∧
+      stepStored env l ⟨false, true⟩ r now .ok 0 = .att (attemptAt env l now r .ok 0 0) :=
   ⟨⟨.temporary, 60⟩, ⟨none, none, some 5, none⟩, ⟨0, none, some 100, 1, false, false⟩, 200, by decide, by decide, by decide, by decide⟩
 
-/-- … and since a failed cycle stores nothing, it raises in EVERY later cycle, whatever the time: the
-    handler is never executed again (until somebody removes the record by hand). -/
+/-- … and since a failed cycle stores nothing, it raised in EVERY later cycle, whatever the time: the
+    handler was never executed again (until somebody removed the record by hand). -/
 theorem naive_delayed_raises_forever (env : Env) (l : Limits) (r : Rec) (d : Int) (hf : r.finished = false)
     (hd : r.delayed = some d) (sn : Bool) (now : Int) (x : Raised) (dur : Nat) :
-    stepStored env l ⟨sn, true⟩ r now x dur = .raised := by
-  simp [stepStored, hf, hd]
+    stepStoredRaw env l ⟨sn, true⟩ r now x dur = .raised := by
+  simp [stepStoredRaw, hf, hd]
 
 /-- A TZ-naive `started` alone (no `delayed`: the first attempt asked for an immediate retry, or the
-    record was created by a cycle that skipped the handler) is fatal as well, unless the handler is
+    record was created by a cycle that skipped the handler) was fatal as well, unless the handler is
     refused by `retries` without a timeout being set. -/
 theorem naive_started_raises (env : Env) (l : Limits) (r : Rec) (hf : r.finished = false) (hd : r.delayed = none)
     (h : l.timeout.isSome = true ∨ retriesOut l r.retries = false) (now : Int) (x : Raised) (dur : Nat) :
-    stepStored env l ⟨true, false⟩ r now x dur = .raised := by
+    stepStoredRaw env l ⟨true, false⟩ r now x dur = .raised := by
   have hs : r.sleeping now = false := by simp [Rec.sleeping, hd]
-  rcases h with h | h <;> simp [stepStored, hf, hs, h]
+  rcases h with h | h <;> simp [stepStoredRaw, hf, hs, h]
+
+/-! ## Stacked registrations: one function, one id, two reasons (f7d6401)
+
+  "With retries=N a handler is invoked at most N times": a handler is ONE registration (one decorator
+  with its own limits, bound to its reason), counted within the handling of one cause. A cause that
+  supersedes another starts the other registration's count at zero; the function may run up to
+  `N₁ + N₂` times in all, each registration within its own limit. -/
+
+/-- Each of the two registrations keeps within its own `retries`, whatever the cycles of either handling
+    (record continuity inside each handling, as for every `_partial` law of change handlers). -/
+theorem namesake_retries_bound_partial (env : Env) (l1 l2 : Limits) (t0 t1 : Int) (s1 s2 : List Step) :
+    (∀ N, l1.retries = some N → (invocations (namesakeFresh env l1 l2 t0 s1 t1 s2).1).length ≤ N.toNat) ∧
+    (∀ N, l2.retries = some N → (invocations (namesakeFresh env l1 l2 t0 s1 t1 s2).2).length ≤ N.toNat) :=
+  ⟨fun N h => retries_bound_scratch_partial env l1 N h t0 t0 s1,
+   fun N h => retries_bound_scratch_partial env l2 N h t1 t1 s2⟩
+
+/-- The second registration's first turn is on a fresh record: `retry = 0`, invoked iff its own limits
+    allow a first invocation (`wait < T`, `0 < N`) — nothing of the namesake's series is held against it. -/
+theorem namesake_starts_from_scratch (env : Env) (l1 l2 : Limits) (t0 t1 : Int) (s1 : List Step)
+    (dt wait : Nat) (x : Raised) (dur lag : Nat) (rest : List Step) :
+    ∃ a, (namesakeFresh env l1 l2 t0 s1 t1 (.cycle dt wait x dur lag :: rest)).2.head? = some (.att a) ∧
+      a.retry = 0 ∧ a.time = t1 + dt + wait := by
+  refine ⟨attemptAt env l2 (t1 + dt + wait) (fromScratch t1) x dur lag, ?_, rfl, rfl⟩
+  simp [namesakeFresh, run, fromScratch_awakened]
+
+/-- REGRESSION (the code before f7d6401; C03-N3 seen from here) and at the same time what the code STILL
+    does one level down, for the sub-handlers of a stacked parent (open finding C11-F6): the update
+    registration (no limit of its own) was invoked three times and waits for its retry; the deletion
+    registration (`retries = 3`) takes over that record and is recorded as failed for good by `retries`
+    WITHOUT A SINGLE INVOCATION — started from scratch it is invoked at once. -/
+theorem namesake_inherits_refused_witness :
+    ∃ (env : Env) (l1 l2 : Limits) (s1 s2 : List Step) (t1 : Int),
+      (invocations (namesakeInherits env l1 l2 0 s1 t1 s2).2) = [] ∧
+      ((attempts (namesakeInherits env l1 l2 0 s1 t1 s2).2).map (fun a => (a.retry, a.out.exc, a.recAfter.failure)))
+        = [(3, .retries, true)] ∧
+      ((attempts (namesakeFresh env l1 l2 0 s1 t1 s2).2).map (fun a => (a.retry, a.out.invoked))) = [(0, true)] :=
+  ⟨⟨.temporary, 60⟩, ⟨none, none, none, some 10⟩, ⟨none, none, some 3, some 10⟩,
+   [.cycle 0 0 .arbitrary 0 0, .cycle 10 0 .arbitrary 0 0, .cycle 10 0 .arbitrary 0 0], [.cycle 10 0 .ok 0 0], 20,
+   by decide, by decide, by decide⟩
 
 /-! ## `initial_delay=` of daemons and timers: the series' clock starts after it -/
 
